@@ -316,8 +316,20 @@ def v_render_component(c):
 def v_render_flowir(case):
     comps = [v_render_component(c) for c in case["comps"]]
     variables = {"default": {"global": {k: V_GLOBAL[k] for k in sorted(case["gvars"])}}}
-    if any(c["s"] == 1 for c in case["comps"]):
-        variables["default"]["stages"] = {1: dict(STAGE1_VARS)}
+    sv = list(case.get("sv") or [0, 2]) + [0] * 7           # spec: svals = <<v0, v1, -, -, -, -, 1 + stage that also defines msg>>
+    stages = {}
+    for st in (0, 1):
+        if not any(c["s"] == st for c in case["comps"]):
+            continue
+        d = {}
+        if sv[st] > 0:
+            d["rs"] = sv[st]
+        if sv[6] == st + 1:
+            d["msg"] = "hello from stage %d" % st
+        if d:
+            stages[st] = d
+    if stages:
+        variables["default"]["stages"] = stages
     return {"variables": variables, "components": comps}
 
 
@@ -351,9 +363,9 @@ def v_run(flowir, path, scratch, timeout=30):
     old = signal.signal(signal.SIGALRM, on_alarm)
     signal.alarm(timeout)
     try:
-        if path == "graph":
+        if path in ("graph", "primitive"):
             import experiment.model.graph as G
-            wg = G.WorkflowGraph.graphFromFlowIR(copy.deepcopy(flowir), {}, primitive=False)
+            wg = G.WorkflowGraph.graphFromFlowIR(copy.deepcopy(flowir), {}, primitive=(path == "primitive"))
             ncomp = len(wg.configuration.get_flowir_concrete(return_copy=False).get_components())
             problems = _accept_checks(wg.graph, lambda n: wg.configurationForNode(n, raw=False), ncomp)
         else:
